@@ -220,8 +220,18 @@ class Helper:
     def _classify(self):
         n = self.node
         a = n.args
-        if n.decorator_list or a.kwarg or isinstance(
-                n, ast.AsyncFunctionDef):
+        # a cache decorator does not change what a call returns (whether
+        # the cache is harmless is MEMO's question, and the definition stays
+        # in the module for it to look at)
+        self.cached = False
+        decos = []
+        for d in n.decorator_list:
+            name = ast.unparse(d.func if isinstance(d, ast.Call) else d)
+            if name.rsplit(".", 1)[-1] in ("lru_cache", "cache"):
+                self.cached = True
+            else:
+                decos.append(d)
+        if decos or a.kwarg or isinstance(n, ast.AsyncFunctionDef):
             return False
         if a.vararg is not None and (a.kwonlyargs or any(
                 isinstance(x, ast.Name) and x.id == a.vararg.arg
@@ -1170,7 +1180,8 @@ class Inliner:
             if not h.inlined or h.owner[0] == "foreign":
                 continue
             private = h.name.startswith("_") or h.owner[0] == "func"
-            if not private or self._remaining_refs(h):
+            if not private or self._remaining_refs(h) or getattr(
+                    h, "cached", False):
                 continue
             parent_body = None
             if h.owner[0] == "mod":
